@@ -2479,8 +2479,59 @@ def c02_exhaust(ctx):
         out.inst(key, not bad, '%d exhaustion edge(s)' % len(cut), sample={'task': key_of(b), 'exhaustion_edges': len(cut)})
         for (pred, alt) in bad[:1]:
             out.fail(key, '%s can return %s without having seen the source run dry (no `None` pull on that path): input that was never searched remains, and a match in it is missed' % (key_of(b), t_str(alt)[:60]), b.where(b.blocks[pred]['term'].get('line')))
+    # (b) the same one level down: a closure of the search chain (the argument of flat_map / filter_map / find_map) answers "nothing
+    # in this element" with a literal None only where a user test said so (the filter / predicate rejected, has_value was false) or
+    # where the result of a search it made is None - never on a test of its own (`size_hint().0 == 0` is a lower bound, not emptiness)
+    m_ = 0
+    for tn in sorted(early_exit_tasks(ctx)):
+        tb = F.bodies[tn]
+        for cb in F.closures_in(tb, recursive=True):
+            if not str(cb.d.get('ret_ty') or '').startswith('std::option::Option<'):
+                continue
+            rc = ctx.run0(cb.name)
+            sw_terms = [d for (d, tg) in rc.switches.values()]
+            if not sw_terms:
+                continue        # branch-free: whatever it returns is computed from the element
+            m_ += 1
+            key = 'C02-EXHAUST/' + key_of(cb)
+            bad = None
+            for bb_ in sorted(rc.visited):
+                blk = cb.blocks[bb_]
+                if blk.get('cleanup') or bb_ not in rc.exit_env:
+                    continue
+                for st in blk.get('stmts', []):
+                    rv = st.get('rv') or {}
+                    if st.get('lhs') and st['lhs'].get('l') == 0 and not st['lhs'].get('p') and rv.get('r') == 'agg' and rv.get('adt') == 'std::option::Option' and rv.get('variant') == 'None':
+                        pc = rc.exit_env[bb_].get(OPA_PC, frozenset())
+                        justified = False
+                        for pt, f in pc:
+                            x = pt
+                            if x is not None and x[0] == 'discr':
+                                x = x[1]
+                            kind, arg = norm_bool(x) if x is not None else (None, None)
+                            y = arg if kind in ('not', 'id', 'is_some', 'is_none') else x
+                            if kind in ('is_some', 'is_none'):
+                                justified = True        # decided by the outcome of a search / an Option the closure computed
+                            elif y is not None and y[0] == 'call' and (_user_pred_truth(tb, y) or tcallee(y).endswith('Fallible::has_value') or
+                                                                       (sg(y[1]) in FN_CALLS and y[2] and str(_unref_param(y[2][0]))[:4] == 'cap:')):
+                                justified = True
+                            elif x is not None and x[0] == 'call' and (is_iter_method(x, ('find', 'find_map', 'next', 'position')) or tcallee(x).startswith('std::option::Option::')):
+                                justified = True
+                        if not justified:
+                            bad = (bb_, st.get('line'), pc)
+            out.inst(key, bad is None, 'literal None only behind a user test', sample={'closure': key_of(cb)})
+            if bad is not None:
+                tests = ', '.join(sorted({t_str(pt)[:60] for pt, f in bad[2]})) or 'no test at all'
+                out.fail(key, '%s answers None for an element on a path decided by %s - not by the user\'s filter / has_value nor by the outcome of a search: values of that element are never examined, and a match among them is missed' % (key_of(cb), tests), cb.where(bad[1]))
+    out.count('search_closures', m_)
     out.floor('find_tasks', n, 1 if not ctx.fixture else 0)
     return out
+
+
+def _unref_param(t):
+    while t is not None and t[0] in ('ref', 'mut'):
+        t = t[1]
+    return t[1] if t is not None and t[0] == 'param' else ''
 
 
 WHOLE_VIEWS = {'iter', 'into_iter', 'as_slice', 'as_mut_slice', 'deref', 'as_ref', 'borrow', 'into_con_iter', 'con_iter', 'into_con_iter_x',
